@@ -360,11 +360,7 @@ def run_shard(shard, rec):
                             rec.violation("codec-baseexception-differs", "%s: %s%r came back as %r %r" % (sername, name, args, back, vars(back)), None)
                         else:
                             rec.count("codec_baseexc_ok")
-        for k in REQUIRED_REACH:
-            if k != "codec_baseexc_ok":
-                rec.count(k)      # this shard only decides the codec-level part
-        return
-    rec.count("codec_baseexc_ok")
+        return      # this shard only decides the codec-level part
     sername = shard["serializer"]
     fx = fixture.Fixture(servertype=shard["servertype"], COMMTIMEOUT=0.0, ITER_STREAMING=True, DETAILED_TRACEBACK=False)
     try:
